@@ -554,6 +554,9 @@ func cmdC01Rand(args []string) {
 	t := newTracer(*trace)
 	defer t.close()
 	var probes, lists, rejected, nontrivial int
+	var live *cors.Middleware
+	var liveH http.Handler
+	var prevAllowed []cOrigin
 	var samples []any
 	for probes < *n {
 		var pats []cPattern
@@ -576,18 +579,27 @@ func cmdC01Rand(args []string) {
 		for i, p := range pats {
 			strs[i] = p.String()
 		}
-		m, err := cors.NewMiddleware(cors.Config{
-			Origins: strs,
-			ExtraConfig: cors.ExtraConfig{
-				DangerouslyTolerateSubdomainsOfPublicSuffixes: true,
-			},
-		})
-		noise(m)
+		// every other list is installed with Reconfigure on ONE long-lived middleware whose handler was wrapped once, before
+		// it was ever configured; the origins the previous list allowed are probed first (what was allowed before must not linger)
+		cfg := cors.Config{Origins: strs, ExtraConfig: cors.ExtraConfig{DangerouslyTolerateSubdomainsOfPublicSuffixes: true}}
+		var m *cors.Middleware
+		var err error
+		reuse := lists%2 == 1
+		if reuse {
+			if live == nil {
+				live = new(cors.Middleware)
+				liveH = live.Wrap(okHandler)
+			}
+			m, err = live, live.Reconfigure(&cfg)
+		} else {
+			m, err = cors.NewMiddleware(cfg)
+		}
 		if err != nil {
 			rejected++
 			t.emit(map[string]any{"ev": "Rejected", "patterns": strs, "err": err.Error()})
 			continue
 		}
+		noise(m)
 		lists++
 		if len(pats) >= 2 {
 			nontrivial++
@@ -597,6 +609,9 @@ func cmdC01Rand(args []string) {
 			t.emit(map[string]any{"ev": "Insert", "scheme": p.Scheme, "wild": p.Wild, "host": codes(p.Host), "port": p.Port})
 		}
 		h := m.Wrap(okHandler)
+		if reuse {
+			h = liveH
+		}
 		var os []cOrigin
 		for _, p := range pats {
 			os = nearMisses(rng, p, os)
@@ -606,11 +621,24 @@ func cmdC01Rand(args []string) {
 			rng.Shuffle(len(os), func(i, j int) { os[i], os[j] = os[j], os[i] })
 			os = os[:400]
 		}
+		if reuse {
+			os = append(append([]cOrigin{}, prevAllowed...), os...)
+		}
+		var nowAllowed []cOrigin
 		for _, o := range os {
 			s := o.String()
 			act, pf := originAllowedByMiddleware(h, s)
 			t.emit(map[string]any{"ev": "Probe", "scheme": o.Scheme, "host": codes(o.Host), "port": o.Port, "acao": act, "pf": pf, "raw": s})
 			probes++
+			if act {
+				nowAllowed = append(nowAllowed, o)
+			}
+		}
+		if reuse { // what the LONG-LIVED middleware allowed under this list, most recent first
+			prevAllowed = prevAllowed[:0]
+			for i := len(nowAllowed) - 1; i >= 0 && len(prevAllowed) < 25; i-- {
+				prevAllowed = append(prevAllowed, nowAllowed[i])
+			}
 		}
 		if len(samples) < 3 {
 			samples = append(samples, map[string]any{"patterns": strs, "first_probes": firstN(os, 5)})
